@@ -3,11 +3,17 @@
 //! with the REAL plugin's own encode operations, fed to the real MessageReceiver with real
 //! SecurityPlugins (GateRig) and the deliveries observed at the readers' topic caches / writer
 //! proxies and at the acknack channel are logged as ndjson for Trace_SecGate.tla.
+//!
+//! A run also has a matching configuration `xm` (pairs (d, w): the local reader of topic d is additionally
+//! matched to a writer of a second remote participant -- source "peer2" -- that carries the EntityId of the
+//! peer's writer of topic w), so that writer submessages without reader id have several candidate readers
+//! with different protection requirements.  It is chosen by TLC (MC_SecGate_*x.cfg) / the random generator,
+//! built by GateRig::new_with_matches and logged in the Reset line.
 
 use std::collections::HashMap;
 
 use rand::{rngs::StdRng, Rng, SeedableRng};
-use rustdds::verif::gate_rig::GateRig;
+use rustdds::verif::gate_rig::{GateRig, PEER2_PREFIX};
 use serde::{Deserialize, Serialize};
 use serde_json::{json, Value};
 
@@ -46,7 +52,7 @@ pub struct El {
     /// 1-based index into wraps (P/B/F)
     #[serde(default)]
     pub w: usize,
-    /// idst: self|other|unknown, isrc: peer|foreign
+    /// idst: self|other|unknown, isrc: peer|peer2|foreign
     #[serde(default = "d_none")]
     pub who: String,
 }
@@ -56,9 +62,12 @@ pub struct MsgSpec {
     /// only in the flat form dumped by TLC (one message per line)
     #[serde(default, skip_serializing_if = "Option::is_none")]
     pub gov: Option<String>,
+    /// matching configuration (flat form only, see RunSpec::xm)
+    #[serde(default, skip_serializing_if = "Option::is_none")]
+    pub xm: Option<Vec<(String, String)>>,
     /// plain | srtps | srtps_bad | shift
     pub first: String,
-    /// peer | foreign
+    /// peer | peer2 (second remote participant, no key material) | foreign
     pub src: String,
     #[serde(default)]
     pub wraps: Vec<WrapSpec>,
@@ -68,6 +77,10 @@ pub struct MsgSpec {
 #[derive(Clone, Debug, Serialize, Deserialize)]
 pub struct RunSpec {
     pub gov: String,
+    /// matching configuration of the run: pairs (d, w) -- the local reader of topic d is additionally matched
+    /// to a writer of the second remote participant that has the EntityId of the peer's writer of topic w
+    #[serde(default)]
+    pub xm: Vec<(String, String)>,
     pub msgs: Vec<MsgSpec>,
 }
 
@@ -161,7 +174,11 @@ impl Exec {
 
 fn run_msg(x: &mut Exec, m: &MsgSpec, gov: &str, ev: &mut Vec<Value>) -> bool {
     let own = x.rig.own_prefix;
-    let src_prefix = if m.src == "peer" { own } else { FOREIGN };
+    let src_prefix = match m.src.as_str() {
+        "peer" => own,
+        "peer2" => PEER2_PREFIX,
+        _ => FOREIGN,
+    };
     let header = wire::encode_header(&src_prefix);
 
     // ---- wraps
@@ -258,7 +275,11 @@ fn run_msg(x: &mut Exec, m: &MsgSpec, gov: &str, ev: &mut Vec<Value>) -> bool {
                 els_log.push(l);
             }
             "isrc" => {
-                let p = if e.who == "peer" { own } else { FOREIGN };
+                let p = match e.who.as_str() {
+                    "peer" => own,
+                    "peer2" => PEER2_PREFIX,
+                    _ => FOREIGN,
+                };
                 body.extend_from_slice(&wire::encode_sub(&Sub::InfoSrc { version: [2, 4], vendor: [1, 0x12], prefix: p }, true));
                 let mut l = blank("isrc");
                 l["who"] = json!(e.who);
@@ -347,7 +368,12 @@ fn run_msg(x: &mut Exec, m: &MsgSpec, gov: &str, ev: &mut Vec<Value>) -> bool {
 
 pub fn run_one(run: usize, spec: &RunSpec, ev: &mut Vec<Value>) -> Vec<Vec<u8>> {
     let gov_file = format!("governance_rtps{}.p7s", spec.gov);
-    let rig = match GateRig::new(&fixtures_dir(), &gov_file) {
+    // the matching configuration in canonical form (known topics only, sorted, no duplicates)
+    let mut xm: Vec<(String, String)> = spec.xm.iter().filter(|(d, w)| ep_index(d).is_some() && ep_index(w).is_some() && d != "stateless").cloned().collect();
+    xm.sort();
+    xm.dedup();
+    let extra: Vec<(usize, usize)> = xm.iter().map(|(d, w)| (ep_index(d).unwrap(), ep_index(w).unwrap())).collect();
+    let rig = match GateRig::new_with_matches(&fixtures_dir(), &gov_file, &extra) {
         Ok(r) => r,
         Err(e) => {
             eprintln!("gate rig construction failed: {e}");
@@ -360,7 +386,8 @@ pub fn run_one(run: usize, spec: &RunSpec, ev: &mut Vec<Value>) -> Vec<Vec<u8>> 
         .zip(rig.facts.iter())
         .map(|(e, f)| json!({"name": e.name, "rsub": f.reader_sub_protected, "rpay": f.reader_payload_protected, "wsub": f.writer_sub_protected, "errs": f.setup_errors}))
         .collect();
-    ev.push(json!({"ev": "Reset", "run": run, "gov": spec.gov, "rtps": spec.gov != "N", "dbg": {"rtps_protected": rig.rtps_protected, "facts": facts, "setup_errors": rig.setup_errors}}));
+    let xm_log: Vec<Value> = xm.iter().map(|(d, w)| json!([d, w])).collect();
+    ev.push(json!({"ev": "Reset", "run": run, "gov": spec.gov, "rtps": spec.gov != "N", "xm": xm_log, "dbg": {"rtps_protected": rig.rtps_protected, "facts": facts, "setup_errors": rig.setup_errors}}));
     let mut x = Exec { rig, next_id: 1 };
     for m in &spec.msgs {
         if !run_msg(&mut x, m, &spec.gov, ev) {
@@ -370,20 +397,24 @@ pub fn run_one(run: usize, spec: &RunSpec, ev: &mut Vec<Value>) -> Vec<Vec<u8>> 
     vec![]
 }
 
-/// TLC dumps one message per line (with its governance); group them into runs.
+/// TLC dumps one message per line (with its governance and matching configuration); group them into runs.
 fn group(flat: Vec<MsgSpec>, per_run: usize) -> Vec<RunSpec> {
-    let mut by: Vec<(String, Vec<MsgSpec>)> = vec![];
+    let mut by: Vec<((String, Vec<(String, String)>), Vec<MsgSpec>)> = vec![];
     for mut m in flat {
         let g = m.gov.take().unwrap_or_else(|| "E".into());
-        match by.iter_mut().find(|x| x.0 == g) {
+        let mut xm = m.xm.take().unwrap_or_default();
+        xm.sort();
+        xm.dedup();
+        let key = (g, xm);
+        match by.iter_mut().find(|x| x.0 == key) {
             Some(x) => x.1.push(m),
-            None => by.push((g, vec![m])),
+            None => by.push((key, vec![m])),
         }
     }
     let mut out = vec![];
-    for (g, ms) in by {
+    for ((g, xm), ms) in by {
         for c in ms.chunks(per_run) {
-            out.push(RunSpec { gov: g.clone(), msgs: c.to_vec() });
+            out.push(RunSpec { gov: g.clone(), xm: xm.clone(), msgs: c.to_vec() });
         }
     }
     out
@@ -393,8 +424,50 @@ fn pick<'a>(rng: &mut StdRng, xs: &[&'a str]) -> &'a str {
     xs[rng.gen_range(0..xs.len())]
 }
 
-fn random_ent(rng: &mut StdRng) -> (String, String, String, String) {
+/// readers / writer ids that take part in random matching configurations (EntityId order of the readers)
+const FAN: [&str; 7] = ["NN", "EN", "NE", "sedp", "EE", "SN", "NS"];
+
+fn random_xm(rng: &mut StdRng) -> Vec<(String, String)> {
+    let mut xm: Vec<(String, String)> = vec![];
+    match rng.gen_range(0..10) {
+        // every reader matched to its peer writer only
+        0..=2 => {}
+        // a few pairs
+        3..=6 => {
+            for _ in 0..rng.gen_range(1..=4) {
+                xm.push((pick(rng, &FAN).to_string(), pick(rng, &FAN).to_string()));
+            }
+        }
+        // a rotation: two candidate readers for every writer id
+        7..=8 => {
+            let k = rng.gen_range(1..FAN.len());
+            for i in 0..FAN.len() {
+                xm.push((FAN[i].to_string(), FAN[(i + k) % FAN.len()].to_string()));
+            }
+        }
+        // everything
+        _ => {
+            for d in FAN {
+                for w in FAN {
+                    xm.push((d.to_string(), w.to_string()));
+                }
+            }
+        }
+    }
+    xm.sort();
+    xm.dedup();
+    xm
+}
+
+fn random_ent(rng: &mut StdRng, xm: &[(String, String)]) -> (String, String, String, String) {
     let kind = pick(rng, &["DATA", "DATA", "FRAG", "HB", "GAP", "ACK"]);
+    // a matched pair of the configuration: named reader / no reader id, writer id of the other topic
+    if kind != "ACK" && !xm.is_empty() && rng.gen_range(0..4) == 0 {
+        let (d, w) = &xm[rng.gen_range(0..xm.len())];
+        let dst = if rng.gen_range(0..2) == 0 { "UNKNOWN".to_string() } else { d.clone() };
+        let pay = if kind == "DATA" || kind == "FRAG" { pick(rng, &["plain", "plain", "plain", "enc"]) } else { "na" };
+        return (kind.into(), dst, w.clone(), pay.into());
+    }
     let wr = pick(rng, &DESTS);
     let dst = match rng.gen_range(0..10) {
         0..=5 => wr,
@@ -416,12 +489,13 @@ pub fn random_specs(seed: u64, runs: usize, events: usize) -> Vec<RunSpec> {
     for r in 0..runs {
         let mut rng = StdRng::seed_from_u64(seed.wrapping_mul(1_000_003).wrapping_add(r as u64));
         let gov = pick(&mut rng, &["N", "S", "E", "E"]).to_string();
+        let xm = random_xm(&mut rng);
         let mut msgs = vec![];
         for _ in 0..events {
             let nw = rng.gen_range(0..3);
             let mut wraps = vec![];
             for _ in 0..nw {
-                let (kind, dst, wr, pay) = random_ent(&mut rng);
+                let (kind, dst, wr, pay) = random_ent(&mut rng, &xm);
                 let key = match rng.gen_range(0..10) {
                     0..=5 if ["EN", "EE", "SN", "volatile"].contains(&wr.as_str()) => wr.clone(),
                     _ => pick(&mut rng, &["EN", "EE", "SN", "volatile"]).to_string(),
@@ -434,7 +508,7 @@ pub fn random_specs(seed: u64, runs: usize, events: usize) -> Vec<RunSpec> {
             while els.len() < n {
                 match rng.gen_range(0..20) {
                     0..=8 => {
-                        let (kind, dst, wr, pay) = random_ent(&mut rng);
+                        let (kind, dst, wr, pay) = random_ent(&mut rng, &xm);
                         els.push(El { t: "ent".into(), kind, dst, wr, pay, w: 0, who: "na".into() });
                     }
                     9..=13 if nw > 0 => {
@@ -459,17 +533,21 @@ pub fn random_specs(seed: u64, runs: usize, events: usize) -> Vec<RunSpec> {
                     }
                     18 => {
                         let mut e = blank("isrc");
-                        e.who = pick(&mut rng, &["peer", "foreign"]).into();
+                        e.who = pick(&mut rng, &["peer", "foreign", "peer2"]).into();
                         els.push(e);
                     }
                     _ => els.push(blank("its")),
                 }
             }
             let first = pick(&mut rng, &["plain", "plain", "plain", "srtps", "srtps", "srtps_bad", "shift"]).to_string();
-            let src = pick(&mut rng, &["peer", "peer", "peer", "foreign"]).to_string();
-            msgs.push(MsgSpec { gov: None, first, src, wraps, els });
+            let src = if xm.is_empty() {
+                pick(&mut rng, &["peer", "peer", "peer", "foreign"]).to_string()
+            } else {
+                pick(&mut rng, &["peer", "peer", "peer", "peer2", "peer2", "foreign"]).to_string()
+            };
+            msgs.push(MsgSpec { gov: None, xm: None, first, src, wraps, els });
         }
-        out.push(RunSpec { gov, msgs });
+        out.push(RunSpec { gov, xm, msgs });
     }
     out
 }
